@@ -695,6 +695,7 @@ type run[K any] struct {
 	cmpTable  func(string) func(K, K) int // comparators by name (initcmp)
 	mismatch  bool                        // the unforced height of the lazy-init insert differs from what the line asks for
 	structBad string
+	ids       *idTable             // node objects numbered in allocation order (dump mode)
 	halted    bool                 // the reflected towers are damaged: no further call into the real code
 	held      *nodeView[K]         // node handle kept by `hold`
 	seqs      [4]iter.Seq2[K, int] // iter.Seq2 values kept by `seq k`
@@ -730,7 +731,7 @@ func (r *run[K]) dump() string {
 		}
 		return s
 	}
-	level, n, isNil, chains, bad := towers(r.l.ptr, r.showRV)
+	level, n, isNil, chains, bad := towers(r.l.ptr, r.showRV, r.ids)
 	if bad != "" {
 		r.structBad = bad
 	}
@@ -1044,6 +1045,9 @@ func (r *run[K]) step(t []string) string {
 			r.src.v = bulkWord(t[5] == "tall", x)
 			if l.setNx(r.ofInt(a.lo+a.step*i), 1000+i) {
 				cnt++
+				if r.dumpOn && !r.vdump {
+					r.ids.discover(l.ptr) // ids in allocation order
+				}
 			}
 		}
 		return strconv.Itoa(cnt)
@@ -1249,7 +1253,7 @@ func newRunner(hdr []string) runner {
 	}
 	switch kt {
 	case "int":
-		r := &run[int]{src: src, parse: parseIntKey, show: strconv.Itoa, dumpOn: dumpOn, vdump: vdump, ofInt: func(i int) int { return i }, cmpTable: intCmp,
+		r := &run[int]{ids: newIDTable(), src: src, parse: parseIntKey, show: strconv.Itoa, dumpOn: dumpOn, vdump: vdump, ofInt: func(i int) int { return i }, cmpTable: intCmp,
 			showRV: func(v reflect.Value) string { return strconv.FormatInt(v.Int(), 10) }}
 		switch kind {
 		case "zero":
@@ -1274,7 +1278,7 @@ func newRunner(hdr []string) runner {
 		finish(r.l.ptr)
 		return r
 	case "str":
-		r := &run[string]{src: src, parse: parseStr, show: showStr, dumpOn: dumpOn, vdump: vdump, cmpTable: strCmp,
+		r := &run[string]{ids: newIDTable(), src: src, parse: parseStr, show: showStr, dumpOn: dumpOn, vdump: vdump, cmpTable: strCmp,
 			showRV: func(v reflect.Value) string { return showStr(v.String()) }}
 		switch kind {
 		case "zero":
@@ -1818,11 +1822,16 @@ func checkTowers(dump string, keys []string, initialised bool, cmp func(a, b str
 	}
 	var l0 []string
 	if len(chains) > 0 {
-		l0 = chains[0]
+		l0 = make([]string, len(chains[0]))
+		for j, tok := range chains[0] {
+			l0[j], _, _ = strings.Cut(tok, "#")
+		}
 	}
 	if strings.Join(l0, " ") != strings.Join(keys, " ") {
 		return "level 0 is not the ascending key list"
 	}
+	// tokens are key#id: level i+1 must be a sub-list of level i as a list of node OBJECTS (same
+	// id, not merely the same key), and an id stands for one object
 	for i := 1; i < len(chains); i++ {
 		j := 0
 		for _, k := range chains[i] {
@@ -1830,9 +1839,18 @@ func checkTowers(dump string, keys []string, initialised bool, cmp func(a, b str
 				j++
 			}
 			if j == len(chains[i-1]) {
-				return fmt.Sprintf("level %d is not a sub-list of level %d", i, i-1)
+				return fmt.Sprintf("level %d is not a sub-list of level %d (as node objects)", i, i-1)
 			}
 			j++
+		}
+	}
+	seenID := map[string]bool{}
+	for _, tok := range append([][]string{nil}, chains...)[min(1, len(chains))] {
+		if _, id, ok := strings.Cut(tok, "#"); ok {
+			if id == "?" || seenID[id] {
+				return "node identity broken on level 0"
+			}
+			seenID[id] = true
 		}
 	}
 	return ""
